@@ -218,7 +218,19 @@ func mergeAuthorizerHealthCheckEvents() *eventsMergerImpl[dbs.DbHealthCheck] {
 }
 
 func mergeAuthorizerBurnEvents() *eventsMergerImpl[state.Burn] {
-	return newEventsMerger[state.Burn](TagAuthorizerBurn, withUniqueEventOverwrite())
+	return newEventsMerger[state.Burn](TagAuthorizerBurn, withAuthorizerBurnMerged())
+}
+
+// withAuthorizerBurnMerged adds up the burns of the same burner
+func withAuthorizerBurnMerged() eventMergeMiddleware {
+	return withEventMerge(func(a, b *state.Burn) (*state.Burn, error) {
+		amount, err := currency.AddCoin(a.Amount, b.Amount)
+		if err != nil {
+			return nil, err
+		}
+		a.Amount = amount
+		return a, nil
+	})
 }
 
 func mergeAddBridgeMintEvents() *eventsMergerImpl[BridgeMint] {
